@@ -78,3 +78,150 @@ Proof.
   2:{ intros k e Hin. apply (lookup_iters (t_den f) Nd Kd). apply (Permutation_in _ (tterms_perm _)). exact Hin. }
   simpl aterms. cbn [fst snd]. rewrite app_nil_r. rewrite apull_list_app. reflexivity.
 Qed.
+
+(* ------------------------------------------------------------ terms_ok *)
+Lemma terms_ok_app L P bs az a b : terms_ok L P bs az a -> terms_ok L P bs az b -> terms_ok L P bs az (a ++ b).
+Proof.
+  induction a as [|t r IH]; intros Ha Hb; simpl; [exact Hb|]. destruct t; simpl in Ha.
+  - apply IH; assumption.
+  - destruct Ha as [H1 H2]. split; [exact H1|apply IH; assumption].
+  - destruct Ha as [H1 H2]. split; [exact H1|apply IH; assumption].
+Qed.
+Lemma terms_ok_consts L P bs az cs : terms_ok L P bs az (map TConst cs).
+Proof. induction cs; simpl; [exact I|assumption]. Qed.
+
+Lemma terms_ok_num L P bs az (l : tdata) :
+  (forall k e, In (k, CStr e) l -> lookup bs (Z.to_nat k) = Some e /\ in_live L e /\ hub_ok P e) ->
+  terms_ok L P bs az (flat_map num_tterm l).
+Proof.
+  induction l as [|[k c] t IH]; intro H; [exact I|]. simpl flat_map. apply terms_ok_app.
+  - destruct c as [q|e].
+    + change (num_tterm (k, CNum q)) with (map TConst (num_term (k, q))). apply terms_ok_consts.
+    + change (num_tterm (k, CStr e)) with [TNextB (Z.to_nat k)]. simpl. split; [|exact I].
+      exists e. apply H. left. reflexivity.
+  - apply IH. intros; apply H; right; assumption.
+Qed.
+Lemma terms_ok_den L P bs az (l : tdata) :
+  (forall k e, In (k, CStr e) l -> lookup az (Z.to_nat k) = Some e /\ in_live L e /\ hub_ok P e) ->
+  terms_ok L P bs az (flat_map den_tterm l).
+Proof.
+  induction l as [|[k c] t IH]; intro H; [exact I|]. simpl flat_map. apply terms_ok_app.
+  - destruct c as [q|e].
+    + change (den_tterm (k, CNum q)) with (map TConst (den_term (k, q))). apply terms_ok_consts.
+    + change (den_tterm (k, CStr e)) with [TNextA (Z.to_nat k)]. simpl. split; [|exact I].
+      exists e. apply H. left. reflexivity.
+  - apply IH. intros; apply H; right; assumption.
+Qed.
+
+Lemma in_live_incl L e : incl (copies e) L -> in_live L e.
+Proof.
+  induction e; simpl; intro H; try exact I; auto.
+  - split; [apply H; left; reflexivity|apply IHe; intros x Hx; apply H; right; exact Hx].
+  - split; [apply IHe1|apply IHe2]; intros x Hx; apply H; apply in_or_app; [left|right]; exact Hx.
+Qed.
+Lemma hub_ok_okx HT e : NoDup (map fst HT) -> okx HT e -> hub_ok (hpar HT) e.
+Proof.
+  intro Hnd. induction e; simpl; intro H; try exact I; auto.
+  - destruct H as (Hin & _ & Hp). split; [exact (hpar_in HT Hnd _ _ _ Hin)|auto].
+  - destruct H. split; auto.
+Qed.
+
+Lemma okx_tops HT e : okx HT e -> forall h c, In (LCopy h c) (tops e) -> exists n p, In (h, (n, p)) HT /\ (c < n)%nat.
+Proof.
+  induction e; simpl; intros Hok h0 c0 Hin.
+  - destruct Hin as [E|[]]. discriminate.
+  - destruct Hin as [E|[]]. injection E as <- <-. destruct Hok as (Hi & Hc & _). exists n, e. split; assumption.
+  - destruct Hok. apply in_app_or in Hin. destruct Hin; eauto.
+  - eauto.
+  - eauto.
+  - eauto.
+Qed.
+
+Lemma streams_in (d : tdata) e : In e (streams d) <-> exists k, In (k, CStr e) d.
+Proof.
+  unfold streams. rewrite in_flat_map. split.
+  - intros [[k c] [Hin He]]. destruct c as [q|e']; simpl in He; [destruct He|]. destruct He as [<-|[]]. exists k. exact Hin.
+  - intros [k Hin]. exists (k, CStr e). split; [exact Hin|left; reflexivity].
+Qed.
+Lemma streams_perm (a b : tdata) : Permutation a b -> Permutation (streams a) (streams b).
+Proof. intro H. unfold streams. apply Permutation_flat_map. exact H. Qed.
+
+Lemma stream_keys_nil (d : tdata) : stream_keys d = [] -> streams d = [].
+Proof.
+  unfold stream_keys, streams. induction d as [|[k c] r IH]; simpl; [reflexivity|].
+  destruct c; simpl; [exact IH|discriminate].
+Qed.
+
+Lemma tcodegen_try (f : tfilt) zero p : tcodegen f zero = Ok (TGen p) ->
+  tp_try p = true \/ (streams (tterms (t_num f)) = [] /\ streams (tterms (t_den f)) = []).
+Proof.
+  unfold tcodegen. destruct (t_any_negative f); [discriminate|].
+  destruct (is_zero_num _); [discriminate|].
+  destruct (flat_map num_tterm (tterms (t_num f)) ++ flat_map den_tterm (tterms (t_den f))); [discriminate|].
+  intro H. injection H as <-. simpl.
+  destruct (stream_keys (tterms (t_num f))) eqn:E1; [|left; reflexivity].
+  destruct (stream_keys (tterms (t_den f))) eqn:E2; [|left; reflexivity].
+  right. split; apply stream_keys_nil; assumption.
+Qed.
+
+(* ------------------------------------------------------ the linear families *)
+(* the Stream coefficients of f, with the hub table HT, form a linear family: every
+   tee node is a copy of a hub of the table (hub numbers distinct, iterators of
+   lower rank), and every leaf - source or tee copy - occurs at most once across
+   the coefficient expressions and the iterators of the hubs; source 0 (the input)
+   is not a coefficient source *)
+Definition all_leaves (HT : htab) (f : tfilt) : list leaf :=
+  flat_map tops (streams (t_num f) ++ streams (t_den f)) ++ ptops HT (map fst HT).
+Definition linf (HT : htab) (f : tfilt) : Prop :=
+  NoDup (map fst HT) /\
+  (forall h n p, In (h, (n, p)) HT -> okx HT p /\ forall h', In h' (hubids p) -> (h' < h)%nat) /\
+  Forall (okx HT) (streams (t_num f) ++ streams (t_den f)) /\
+  NoDup (all_leaves HT f) /\ ~ In (LSrc 0) (all_leaves HT f).
+
+Theorem lin_round_spec S (f : tfilt) zero p memory fuel HT :
+  keys_ok (t_num f) -> keys_ok (t_den f) -> linf HT f -> tcodegen f zero = Ok (TGen p) ->
+  round_spec S (stream_iters (t_num f)) (stream_iters (t_den f)) p fuel 0
+             (unpack (p_mvars (tp_prog p)) memory empty_env)
+             (assign_all (p_dvars (tp_prog p)) zero empty_env)
+             (run_tv S (TGen p) f memory zero fuel).
+Proof.
+  intros Kn Kd (HTnd & HTok & Wok & Alnd & H0) Hc.
+  set (W := streams (t_num f) ++ streams (t_den f)) in *.
+  set (W' := streams (tterms (t_num f)) ++ streams (tterms (t_den f))).
+  assert (Permutation W' W) as PW.
+  { unfold W', W. apply Permutation_app; apply streams_perm; apply tterms_perm. }
+  assert (Forall (okx HT) W') as Wok'.
+  { apply Forall_forall. intros e He. apply (proj1 (Forall_forall _ _) Wok). apply (Permutation_in _ PW). exact He. }
+  assert (forall h c, In (LCopy h c) (all_leaves HT f) -> exists n q, In (h, (n, q)) HT /\ (c < n)%nat) as Allive.
+  { intros h c Hin. unfold all_leaves in Hin. apply in_app_or in Hin. destruct Hin as [Hin|Hin].
+    - apply in_flat_map in Hin. destruct Hin as [e [He Ht]].
+      exact (okx_tops HT e (proj1 (Forall_forall _ _) Wok e He) h c Ht).
+    - unfold ptops in Hin. apply in_flat_map in Hin. destruct Hin as [u [Hu Ht]].
+      apply in_map_iff in Hu. destruct Hu as [[u' [n q]] [E Hu]]. simpl in E. subst u'.
+      rewrite (hpar_in HT HTnd u n q Hu) in Ht. exact (okx_tops HT q (proj1 (HTok u n q Hu)) h c Ht). }
+  assert (Permutation (flat_map tops W' ++ ptops HT (map fst HT)) (all_leaves HT f)) as HAll.
+  { unfold all_leaves. apply Permutation_app_tail. apply Permutation_flat_map. exact PW. }
+  pose proof (round_lin HT (all_leaves HT f) HTnd HTok Alnd Allive W' Wok' HAll H0) as [Hnd Hclean].
+  pose proof (tcodegen_prog f zero p Hc) as Hp.
+  assert (p_terms (tp_prog p) = flat_map num_tterm (tterms (t_num f)) ++ flat_map den_tterm (tterms (t_den f))) as Hts
+    by (rewrite Hp; reflexivity).
+  apply (run_tv_spec S (flat_map copies W') (hpar HT) f p memory zero fuel).
+  - rewrite Hts, aterms_program by assumption. fold W'.
+    destruct (tcodegen_try f zero p Hc) as [Ht|[E1 E2]]; [left; exact Ht|right].
+    unfold W'. rewrite E1, E2. reflexivity.
+  - rewrite Hts. destruct Kn as [Nn Kn]. destruct Kd as [Nd Kd].
+    assert (forall e, In e W' -> in_live (flat_map copies W') e /\ hub_ok (hpar HT) e) as Hw.
+    { intros e He. split.
+      - apply in_live_incl. intros x Hx. apply in_flat_map. exists e. split; assumption.
+      - apply hub_ok_okx; [exact HTnd|]. exact (proj1 (Forall_forall _ _) Wok' e He). }
+    apply terms_ok_app.
+    + apply terms_ok_num. intros k e Hin. split.
+      * apply (lookup_iters (t_num f) Nn Kn). apply (Permutation_in _ (tterms_perm _)). exact Hin.
+      * apply Hw. unfold W'. apply in_or_app. left. apply streams_in. exists k. exact Hin.
+    + apply terms_ok_den. intros k e Hin. split.
+      * apply (lookup_iters (t_den f) Nd Kd). apply (Permutation_in _ (tterms_perm _)). exact Hin.
+      * apply Hw. unfold W'. apply in_or_app. right. apply streams_in. exists k. exact Hin.
+  - rewrite Hts, aterms_program by assumption. exact Hnd.
+  - intros h c Hin. rewrite Hts, aterms_program by assumption.
+    apply in_flat_map in Hin. destruct Hin as [e [He Hc']]. exact (Hclean e h c He Hc').
+Qed.
